@@ -574,6 +574,9 @@ func (c *HTTPClient) Membership(key []byte, version *uint64) (*balloon.Membershi
 	if err != nil {
 		return nil, err
 	}
+	if result == nil {
+		return nil, errors.New("empty membership result")
+	}
 
 	proof := protocol.ToBalloonProof(result, c.hasherF)
 	return proof, nil
@@ -603,6 +606,9 @@ func (c *HTTPClient) MembershipDigest(keyDigest hashing.Digest, version *uint64)
 	err = json.Unmarshal(body, &result)
 	if err != nil {
 		return nil, err
+	}
+	if result == nil {
+		return nil, errors.New("empty membership result")
 	}
 
 	proof := protocol.ToBalloonProof(result, c.hasherF)
@@ -694,7 +700,13 @@ func (c *HTTPClient) Incremental(start, end uint64) (*balloon.IncrementalProof, 
 	}
 
 	var response *protocol.IncrementalResponse
-	_ = json.Unmarshal(body, &response)
+	err = json.Unmarshal(body, &response)
+	if err != nil {
+		return nil, err
+	}
+	if response == nil {
+		return nil, errors.New("empty incremental response")
+	}
 
 	proof := protocol.ToIncrementalProof(response, c.hasherF)
 	return proof, nil
